@@ -16,6 +16,7 @@ import Driver.C17
 import Driver.C32
 import Driver.C20
 import Driver.C11
+import Driver.Um
 /-
   Model driver: reads one request per line on stdin (`<suite> <op> <args…>`), answers one
   line per request on stdout.  Imports models only (no Mathlib, no proofs).
@@ -41,6 +42,7 @@ def dispatch (fs : List String) : String :=
   | "c32" :: rest => Driver.c32 rest
   | "c20" :: rest => Driver.c20 rest
   | "c11" :: rest => Driver.c11 rest
+  | "c01" :: rest | "c02" :: rest | "c03" :: rest | "c04" :: rest | "c27" :: rest => Driver.um rest
   | _ => "bad-op"
 
 partial def loop (h : IO.FS.Stream) (out : IO.FS.Stream) : IO Unit := do
